@@ -13,7 +13,7 @@ entries `if r ∈ js ∧ c ∈ js then M (idxOf r) (idxOf c) else old`.
 -/
 set_option linter.unusedSectionVars false
 
-namespace Ptn.Ham
+namespace Ptn.Ham.Gauge
 open Ptn.Og
 
 variable {α : Type} [Add α] [Mul α] [Sub α] [OfNat α 0] [OfNat α 1] [HasConj α] [DecidableEq α]
@@ -142,4 +142,4 @@ theorem quad_entries (u00 u01 u10 u11 : α) (j00 j01 j10 j11 : Nat) :
     quadEntries u00 u01 u10 u11 j00 j01 j10 j11 = blockEntries [j00, j01, j10, j11] (quadM u00 u01 u10 u11) := by
   simp [quadEntries, blockEntries, quadM, List.range_succ, SProd.sprod, List.product]
 
-end Ptn.Ham
+end Ptn.Ham.Gauge
